@@ -89,7 +89,13 @@ func body(r *vf.Run) {
 
 var poolPath string
 
-const nPlain = 18 // pool layers without an explicit root entry; the rest have one
+// pool layout: [0,nPlain) random tars without an explicit root entry, [nPlain,nPlain+nRoot)
+// with one, then nPacked MinChunkSize layers
+const (
+	nPlain  = 18
+	nRoot   = 6
+	nPacked = 12
+)
 
 func buildPools(r *vf.Run) ([]*lx.LayerSpec, error) {
 	// 18 layers without an explicit root entry + 6 with one (DESIGN.md section 6: with the db
@@ -103,7 +109,12 @@ func buildPools(r *vf.Run) ([]*lx.LayerSpec, error) {
 	if err != nil {
 		return nil, err
 	}
-	return append(a, rootPool...), nil
+	// 12 layers built with MinChunkSize (files share compressed streams)
+	packed, err := lx.PackedPool(prng.New(r.Seed).DeriveS("C15-packedpool"), nPacked)
+	if err != nil {
+		return nil, err
+	}
+	return append(append(a, rootPool...), packed...), nil
 }
 
 type batch struct {
@@ -347,11 +358,15 @@ type kase struct {
 
 func newCase(r *vf.Run, idx int, race bool, rng *prng.R) *kase {
 	c := &kase{r: r, idx: idx, race: race, rng: rng, cnt: map[string]int{}}
-	// 1 case in 12 uses a tar with an explicit root entry (pool indices >= nPlain): with the
-	// db store those only reproduce the known "tree is too deep" defect, at ~10 s per case
-	if rng.Chance(1, 12) && len(pool) > nPlain {
-		c.li = nPlain + rng.Intn(len(pool)-nPlain)
-	} else {
+	// 1 case in 3 uses a MinChunkSize layer (streams shared between files: a file's chunks
+	// are spread over the stream of its small predecessors and streams of their own), 1 in
+	// 12 a tar with an explicit root entry, the rest the plain random tars
+	switch x := rng.Intn(12); {
+	case x < 4 && len(pool) >= nPlain+nRoot+nPacked:
+		c.li = nPlain + nRoot + rng.Intn(nPacked)
+	case x == 4 && len(pool) >= nPlain+nRoot:
+		c.li = nPlain + rng.Intn(nRoot)
+	default:
 		c.li = rng.Intn(min(nPlain, len(pool)))
 	}
 	c.ls = pool[c.li]
